@@ -60,6 +60,55 @@ def gen_observer(r, rules):
         return g
     return gen.gen_sform(r, r.randint(1, 3), ATOMS)
 
+def grid_observer_cases(r, tier):
+    """(base text, observer formula text): the base owns `F = u1(u2(a))` for operator pairs of the body language — all crossings of an
+    n-fold previous with an n-fold next, a sample of the rest — and is observed through the sub-formula `u2(a)` (and through F)"""
+    U = gen.unary_shapes()
+    a = ("a", "a")
+    cross, rest = [], []
+    for u1 in U:
+        for u2 in U:
+            f, g = u1(u2(a)), u2(a)
+            tags = {f[0], g[0]}
+            (cross if tags == {"prev", "next"} else rest).append((f, g))
+    pick = cross + (rest if tier != "quick" else r.sample(rest, 40))
+    out = []
+    for f, g in pick:
+        own = r.choice(["#program initial. :- not &tel {{ {} }}.", "#program always. r0 :- not not &tel {{ {} }}.",
+                        "#program initial. :- not &tel {{ > {} }}.", "#program dynamic. :- &tel {{ {} }}, not b."]).format(tl.render_tel(f))
+        out.append(("#program always. { a; b }.\n" + own, tl.render_tel(g if r.random() < 0.8 else f)))
+    return out
+
+def _grid_chunk(args):
+    """P versus P + observer, projected to P's atoms, and the split by the two constraints — as in `_chunk`"""
+    H, cases = args
+    fails, nchecks = [], 0
+    for base, ftxt in cases:
+        ref = oracles.impl_models(base, H, dedup=True)
+        obs = base + "\n#program always. wobs :- not not &tel {{ {} }}.".format(ftxt)
+        c1 = base + "\n#program initial. :- &tel {{ {} }}.".format(ftxt)
+        c2 = base + "\n#program initial. :- not &tel {{ {} }}.".format(ftxt)
+        ro, r1, r2 = oracles.impl_models(obs, H, dedup=True), oracles.impl_models(c1, H, dedup=True), oracles.impl_models(c2, H, dedup=True)
+        if "err" in (ref[0], ro[0], r1[0], r2[0]):
+            for rr, t in ((ref, base), (ro, obs), (r1, c1), (r2, c2)):
+                if rr[0] == "err" and rr[1] not in ("Timeout", "RuntimeError", "ClingoError"):
+                    fails.append({"kind": "exception", "text": t, "error": rr[1], "message": rr[2]})
+            continue
+        for h in range(H + 1):
+            nchecks += 1
+            want = sorted(set(ref[1].get(h, [])))
+            got = sorted(set(project(ro[1].get(h, []), {"wobs"})))
+            if got != want:
+                fails.append({"kind": "observer", "text": obs, "h": h, "n_base": len(want), "n_with_observer": len(got),
+                              "missing": [list(m) for m in want if m not in got][:3], "extra": [list(m) for m in got if m not in want][:3]})
+                break
+            both = sorted(set(r1[1].get(h, []) + r2[1].get(h, [])))
+            if both != want or set(r1[1].get(h, [])) & set(r2[1].get(h, [])):
+                fails.append({"kind": "split", "text": c1 + "\n%%% versus\n" + c2, "input": [c1, c2, base], "h": h, "n_base": len(want),
+                              "n_with_constraint": len(r1[1].get(h, [])), "n_with_negated_constraint": len(r2[1].get(h, []))})
+                break
+    return nchecks, fails
+
 def project(models, drop):
     return sorted(tuple(x for x in m if x.rsplit("@", 1)[0] not in drop) for m in models)
 
@@ -168,6 +217,10 @@ def search(ctx, deep):
     for c, f in par.pmap(_chunk, work, ctx.jobs):
         nchecks += c
         fails += f
+    gcases = grid_observer_cases(random.Random(ctx.seed * 211 + 5), ctx.tier if not deep else "thorough")
+    for c, f in par.pmap(_grid_chunk, [(3, c) for c in par.chunks(gcases, ctx.jobs * 2)], ctx.jobs):
+        nchecks += c
+        fails += f
     # shipped examples as base programs
     nex = 0
     r = random.Random(ctx.seed)
@@ -183,7 +236,7 @@ def search(ctx, deep):
                 if project(got[1].get(h, []), {"wobs", "wobs3"}) != sorted(ref[1][h]):
                     fails.append({"kind": "observer-example", "text": "shipped example " + name + " + observers", "input": name, "h": h})
                     break
-    return {"base_programs": n * ctx.jobs, "horizon_checks": nchecks, "example_horizon_checks": nex, "horizons": "0..{}".format(H),
+    return {"base_programs": n * ctx.jobs, "operator_pair_bases_with_subformula_observers": len(gcases), "horizon_checks": nchecks, "example_horizon_checks": nex, "horizons": "0..{}".format(H),
             "sample": {"program": tl.render_prog(gen_base(random.Random(ctx.seed)))}}, fails
 
 def replay(obj):
